@@ -10,8 +10,8 @@ LEVEL_TEXT = ("Metrics.tla states the answer formula (Syntax: Prometheus text fo
               "metrics.Metrics serves every scenario over HTTP from harness implementations of the defs.API* interfaces, a strict "
               "parser written from the format documentation (checked in every run against lines rendered by the specification) "
               "records the samples, and TLC evaluates the formula on every answer (TraceMetrics.tla)")
-LEVEL_NOTE = ("bounded: at most 2 entities per kind (quick: two entities for 6 kinds and for all kinds together, one entity and every filter for each of the 13 kinds), one string class per entity (the same string is the path name / session path of "
-              "all kinds), fixed states and reader sets; counters are distinct numbers per field, metric -> field by name "
+LEVEL_NOTE = ("bounded: reader multisets: all 35 of <= 4 readers over 3 types, three paths per scrape (quick: 70 scrapes, thorough 1190); at most 2 entities per kind (quick: two entities for 6 kinds and for all kinds together, one entity and every filter for each of the 13 kinds), one string class per entity (the same string is the path name / session path of "
+              "all kinds), fixed states, reader sets by class outside the readers family; counters are distinct numbers per field, metric -> field by name "
               "(snake case vs Go field name; metrics without such a field are left open and counted); samples without labels and "
               "completeness are not constrained by the statement (missing entities are DRIFT); the parser is trusted after its "
               "self-check; failing answers are attributed to the string classes that already fail alone")
@@ -112,7 +112,18 @@ def run(ctx):
 
     # ---- attribution: classes whose string already breaks an answer when it is the only entity string
     def classes_of(c):
+        if c["focus"] == "readers":
+            return ["nonascii", "plain", "punct"]
         return sorted({c["c1"]} if c["n"] == 1 else {c["c1"], c["c2"]})
+
+    def shape_of_bad(c, badidx):
+        """family "readers": the reader multiset <<rtmpConn, rtspSession, webRTCSession>> of the path named by the first bad sample"""
+        x = obs[c["id"]]["parse"]["samples"][badidx[0] - 1]
+        nm = [lb["v"] for lb in x["labels"] if lb["k"] == "name"]
+        for e in c["ents"]:
+            if nm and any(a["k"] == "name" and a["v"] == nm[0] for a in e["attrs"]):
+                return c["shapes"][e["idx"] - 1]
+        return None
 
     def cstr(c, cls):
         for idx, k in ((1, c["c1"]), (2, c["c2"])):
@@ -132,6 +143,15 @@ def run(ctx):
             plainfail[(mon, c["focus"], c["n"], c["filter"])] = c
     groups = {}
     for c, mon, badidx in bad:
+        if (c["focus"] == "readers" and mon == "Faithful" and
+                obs[c["id"]]["parse"]["samples"][badidx[0] - 1]["key"] == "readers"):
+            sh = shape_of_bad(c, badidx)
+            k = "readers %s" % (sh,)
+            g = groups.setdefault((mon, k), {"n": 0, "ex": c, "focuses": set(), "badidx": badidx, "devs": set()})
+            g["n"] += 1
+            g["focuses"].add(c["focus"])
+            g["devs"].add(devof[(c["id"], mon)])
+            continue
         keys = [(mon, k, alone[(k, mon)]) for k in classes_of(c) if needs_escape(cstr(c, k)) and (k, mon) in alone]
         pf = plainfail.get((mon, c["focus"], c["n"], c["filter"]))
         if pf is not None:
@@ -151,8 +171,8 @@ def run(ctx):
     for (mon, cls), g in sorted(groups.items()):
         ex = g["ex"]
         o = obs[ex["id"]]
-        cl = classes_of(ex) if cls == "(any string)" else cls.split("+")
-        esc = cls != "(any string)" and any(needs_escape(cstr(ex, k)) for k in cl)
+        cl = classes_of(ex) if cls == "(any string)" or cls.startswith("readers ") else cls.split("+")
+        esc = cls != "(any string)" and not cls.startswith("readers ") and any(needs_escape(cstr(ex, k)) for k in cl)
         cause = "label value written without escaping" if esc else "other"
         if mon == "Syntax":
             e0 = o["parse"]["errs"][0] if o["parse"]["errs"] else {"ln": 0, "msg": "HTTP status %s" % o["status"], "text": ""}
@@ -166,17 +186,25 @@ def run(ctx):
             x = o["parse"]["samples"][bi[0] - 1]
             detail = ("line %d: sample %s{%s} %s corresponds to no %s entity (entities: %s)"
                       % (x["ln"], x["name"], ",".join("%s=%r" % (lb["k"], s(lb["v"])) for lb in x["labels"]), x["valTxt"],
-                         x["kind"], "; ".join("{%s}" % ",".join("%s=%r" % (a["k"], s(a["v"])) for a in e["attrs"])
+                         x["kind"], "; ".join("{%s}%s" % (",".join("%s=%r" % (a["k"], s(a["v"])) for a in e["attrs"]),
+                                                           (" readers %s" % [s(r) for r in e["readers"]]) if x["key"] == "readers" else "")
                                               for e in ex["ents"] if e["kind"] == x["kind"])))
         dev = "+".join(sorted(g["devs"] - {"none"})) or "none"
         cause += "; named deviation: " + dev
         ctx.violation({"monitor": mon, "class": cls, "cause": cause.split(";")[0], "deviation": dev},
                       "monitor %s fails when a path name / session path is of class %s (%d answers; populated kinds: %s) "
-                      "[cause: %s]; minimal scenario: %s populated with %d entity(ies) per kind, string %r, query filter %s -> %s"
+                      "[cause: %s]; minimal scenario: %s populated with %d entity(ies) per kind, string %r%s, query filter %s -> %s"
                       % (mon, cls, g["n"], ",".join(sorted(g["focuses"])), cause, ex["focus"], ex["n"],
-                         "/".join(s(cstr(ex, k)) for k in cl), ex["filter"], detail))
+                         "/".join(s(cstr(ex, k)) for k in cl),
+                         (", reader multisets <<rtmpConn, rtspSession, webRTCSession>> per path %s" % ex["shapes"]) if ex["shapes"] else "",
+                         ex["filter"], detail))
 
     ctx.set("scenarios", len(cases))
+    rd = [c for c in cases if c["focus"] == "readers"]
+    ctx.set("reader_multiset_scenarios", len(rd))
+    ctx.set("reader_multisets_covered", len({tuple(v) for c in rd for v in c["shapes"]}))
+    ctx.set("paths_readers_samples_judged", sum(1 for c in cases for x in obs[c["id"]]["parse"]["samples"]
+                                                if x["kind"] == "paths" and x["key"] == "readers"))
     ctx.set("traces_validated_against_impl", len(recs))
     ctx.set("samples_with_labels_checked", nsamples)
     ctx.set("samples_without_labels", nbare)
